@@ -65,7 +65,7 @@ def gen_type(r, depth=0, rich=True):
     if k < 0.5:
         return "List[%s]" % gen_type(r, depth + 1)
     if k < 0.65:
-        return "Literal[%s]" % ", ".join(repr(x) for x in r.sample(WORDS, r.randint(1, 3)))
+        return "Literal[%s]" % ", ".join(repr(x) for x in r.sample(WORDS + ["read only", "read write", "two words"], r.randint(1, 3)))
     if k < 0.78:
         return "Union[%s]" % ", ".join(gen_type(r, depth + 1) for _ in range(2))
     if k < 0.88:
